@@ -4,9 +4,11 @@ patch=$1; shift
 cd /verif
 git -C /repo diff --quiet || { echo "/repo not clean"; exit 2; }
 git -C /repo apply "$patch" || { echo "patch does not apply to /repo"; exit 2; }
+rm -rf /verif/.build/evidence.keep && cp -r /verif/evidence /verif/.build/evidence.keep   # evidence of the unchanged tree is kept
 for id in "$@"; do
   out=$(./check $id --tier quick 2>&1 | grep -v "^WARNING"); rc=$?
   echo "CHECK $id on $(basename $(dirname $patch))/$(basename $patch): $(echo "$out" | grep -E 'VIOLATION|CHECK-ERROR|KNOWN' | head -3 | tr '\n' ' ')"
 done
 git -C /repo checkout -- .
+rm -rf /verif/evidence && mv /verif/.build/evidence.keep /verif/evidence
 git -C /repo diff --quiet && echo "(repo restored)"
